@@ -126,7 +126,10 @@ theorem universal_raises (bits n : Nat) (e : PyErr) :
     universal bits n = .error e ↔ n < 387840 ∧ e = .insufficientData := universal_error_kind bits n e
 
 /-- `LinearComplexityScatter` raises only ValueError (`LfsrLogProbability`), exactly when the oracle reports
-a complexity above the length of its interleaved sequence, or that length is 0 (step_size > n). -/
+a complexity above the length of its interleaved sequence, or that length is 0 (step_size > n).
+NOTE (second review, L17): the statement includes step = 0, where the model is NOT the Python code
+(`LinearComplexityScatter(x, 100, 0)`: ZeroDivisionError in `util.Scatter`; model: ok).  The version with the
+precondition `1 ≤ step` in the statement is `C12ErrorsPre.scatter_raises_pre`. -/
 theorem scatter_raises (n step : Nat) (mb : Option Nat) (cs : List Nat) (e : PyErr) :
     linearComplexityScatter n step mb cs = .error e ↔
       (∃ p ∈ (scatterSizes (scatterN n step mb) step).zip cs, p.1 = 0 ∨ p.1 < p.2) ∧ e = .valueError := by
@@ -198,7 +201,10 @@ theorem overlapping_insufficient_iff (o : ChiOracle) (bits n m bs : Nat) :
 /-- ★ all exceptions of `OverlappingTemplateMatching(bits, n, m, block_size)`: ZeroDivisionError for
 block_size = 0, InsufficientDataError without a complete block, and ValueError from `ChiSquare` — either
 because a block of fewer than m + 4 bits cannot contain five occurrences (exactly-zero probability) or
-because the oracle reports that the float distribution was rejected (underflow, m ≳ 1071). -/
+because the oracle reports that the float distribution was rejected (underflow, m ≳ 1071).
+NOTE (second review, L17): the statement includes m = 0, where the model is NOT the Python code
+(`OverlappingTemplateMatching(x, 10, 0, 5)`: ValueError "negative shift count"; model: ok).  The version
+with the precondition `1 ≤ m` in the statement is `C12ErrorsPre.overlapping_raises_pre`. -/
 theorem overlapping_raises (o : ChiOracle) (bits n m bs : Nat) (e : PyErr) :
     overlappingWithF o bits n m bs = .error e ↔
       (bs = 0 ∧ e = .zeroDivision) ∨ (bs ≠ 0 ∧ n < bs ∧ e = .insufficientData) ∨
@@ -349,7 +355,10 @@ theorem rank_insufficient_iff (o : ChiOracle) (bits n r c k : Nat) (hk : 1 ≤ k
 /-- ★ all exceptions of `RandomWalk` (repaired code, D4): ZeroDivisionError and nothing else — for the empty
 string (`CumulativeSumsPValue` divides by √0), and when the random-excursions test is evaluated (J ≥ 500
 cycles, J = #{k ≤ n | S_k = 0} + 1, and max_state ≥ 1) while the oracle reports a 0.0 in the float
-`RandomExcursionsDistribution` (max_cnt ≥ 1075). -/
+`RandomExcursionsDistribution` (max_cnt ≥ 1075).
+NOTE (second review, L17): the statement includes max_cnt = 0, where the model is NOT the Python code as far
+as RESULTS go (`RandomWalk(x, 1200, 4, 0, 9)`: p-values nan for x = ±1, exact value 1; neither side raises).
+The version with the precondition `1 ≤ max_cnt` in the statement is `C12ErrorsPre.randomWalk_raises_pre`. -/
 theorem randomWalk_raises (excZero : Bool) (bits n ms mc msv : Nat) (e : PyErr) :
     randomWalkF excZero .repaired bits n ms mc msv = .error e ↔
       e = .zeroDivision ∧
